@@ -1116,6 +1116,84 @@ theorem two_point_halved_stored (f : List ℝ → ℝ) (w : W ℝ) (params : PLi
   field_simp
   ring
 
+/-- `one_sided_no_raise`, positive half, two-point scheme in general: among the ten tries
+`x + s₀, x + s₁, …` (`s₀ = -H`, then `H, -H/2, H/2, -H/4, …`; `stepAt`) let the first `j` be refused by
+the constraint the variable is passed with and the next one accepted.  Then `updateDerivatives` does
+not raise and stores — not the NaN marker but — the difference quotient with the step `s_j`.
+(`two_point_stored_exact`, `two_point_right_stored`, `two_point_halved_stored` are `j = 0, 1, 2`.) -/
+theorem two_point_falls_back (f : List ℝ → ℝ) (w : W ℝ) (params : PList ℝ) (v : Name) (hown : Own w.fn)
+    (hok : w.fn.OK f) (hF : FreeFn f params w.fn.params) (hB : BoundedNear f w.fn.params w.h) (hpnd : (names params).Nodup)
+    (hc1 : w.c1 = true) (hvars : w.vars = [v]) (hh : w.h ≠ 0) (b qv : Param ℝ)
+    (hqv : find? params v = some qv) (hb : find? w.fn.params v = some b) (hprec : qv.prec = 0)
+    (hl1 : w.der1.length = 1) (j : Nat) (hj : j < 10)
+    (hrej : ∀ k, k < j → qv.violates (b.value + stepAt (-(1 + |b.value|) * w.h) k) = true)
+    (hacc : qv.violates (b.value + stepAt (-(1 + |b.value|) * w.h) j) = false) :
+    (update2 f w params).2 = none ∧
+    (update2 f w params).1.der1 = [some (d1Two (f (values w.fn.params))
+      (f (values (upd1 w.fn.params v (b.value + stepAt (-(1 + |b.value|) * w.h) j)))) (stepAt (-(1 + |b.value|) * w.h) j))] := by
+  have eH : -(Scalar.one + Scalar.abs b.value) * w.h = -(1 + |b.value|) * w.h := by
+    simp only [ScalarReal.one_eq, ScalarReal.abs_eq]
+  obtain ⟨fn1, hval, hLI0, hfin⟩ := update2_single f w params v hown hok hF hB.base hpnd hc1 hvars
+  obtain ⟨s1, _, s3⟩ := step2_first_accepted f hF _ hLI0 0 v b qv hqv hb (by simp) hh hprec hB j hj
+    (by rw [eH]; exact hrej) (by rw [eH]; exact hacc)
+  rcases hs : step2 f params { w := { w with fn := fn1, f1 := fn1.fval }, p := [], lastVar := none } 0 v with ⟨lp1, x1⟩
+  rw [hs] at s1 s3
+  simp only [] at s1 s3
+  subst s1
+  obtain ⟨q1, q2⟩ := hfin lp1 hs
+  refine ⟨q1, ?_⟩
+  rw [q2, s3, setAt_single _ _ hl1, eH, hval]
+
+/-- … on a quadratic the stored value is off by `a₂ s_j`: exact on degree ≤ 1 whatever the try that
+went through -/
+theorem two_point_falls_back_exact (f : List ℝ → ℝ) (w : W ℝ) (params : PList ℝ) (v : Name) (hown : Own w.fn)
+    (hok : w.fn.OK f) (hF : FreeFn f params w.fn.params) (hB : BoundedNear f w.fn.params w.h) (hpnd : (names params).Nodup)
+    (hc1 : w.c1 = true) (hvars : w.vars = [v]) (hh : w.h ≠ 0) (b qv : Param ℝ)
+    (hqv : find? params v = some qv) (hb : find? w.fn.params v = some b) (hprec : qv.prec = 0)
+    (hl1 : w.der1.length = 1) (j : Nat) (hj : j < 10)
+    (hrej : ∀ k, k < j → qv.violates (b.value + stepAt (-(1 + |b.value|) * w.h) k) = true)
+    (hacc : qv.violates (b.value + stepAt (-(1 + |b.value|) * w.h) j) = false)
+    (a0 a1 a2 : ℝ) (hquad : ∀ t, f (values (upd1 w.fn.params v t)) = a0 + a1 * t + a2 * t ^ 2) :
+    (update2 f w params).1.der1 = [some ((a1 + 2 * a2 * b.value) + a2 * stepAt (-(1 + |b.value|) * w.h) j)] := by
+  obtain ⟨_, hd1⟩ := two_point_falls_back f w params v hown hok hF hB hpnd hc1 hvars hh b qv hqv hb hprec hl1 j hj hrej hacc
+  have h0 : -(1 + |b.value|) * w.h ≠ 0 := mul_ne_zero (neg_ne_zero.mpr (by positivity)) hh
+  have hsj : stepAt (-(1 + |b.value|) * w.h) j ≠ 0 := stepAt_ne_zero j h0
+  have hbase : f (values w.fn.params) = a0 + a1 * b.value + a2 * b.value ^ 2 := by
+    rw [← hquad b.value, base_value f w.fn.params hown.1 v b hb]
+  rw [hd1, hbase]
+  simp only [hquad, d1Two_real]
+  generalize stepAt (-(1 + |b.value|) * w.h) j = s at hsj ⊢
+  congr 2
+  field_simp
+  ring
+
+/-- … and conversely: when the two-point scheme stores the NaN marker for the variable, every one of
+the ten tries was refused by the constraint it was passed with — the NaN marker is stored only when
+there is no room at all -/
+theorem two_point_nan_only_without_room (f : List ℝ → ℝ) (w : W ℝ) (params : PList ℝ) (v : Name) (hown : Own w.fn)
+    (hok : w.fn.OK f) (hF : FreeFn f params w.fn.params) (hB : BoundedNear f w.fn.params w.h) (hpnd : (names params).Nodup)
+    (hc1 : w.c1 = true) (hvars : w.vars = [v]) (hh : w.h ≠ 0) (b qv : Param ℝ)
+    (hqv : find? params v = some qv) (hb : find? w.fn.params v = some b) (hprec : qv.prec = 0)
+    (hl1 : w.der1.length = 1) (hnan : (update2 f w params).1.der1 = [none]) :
+    ∀ k, k < 10 → qv.violates (b.value + stepAt (-(1 + |b.value|) * w.h) k) = true := by
+  by_contra hcon
+  have hex : ∃ k, k < 10 ∧ qv.violates (b.value + stepAt (-(1 + |b.value|) * w.h) k) ≠ true := by
+    by_contra hne
+    apply hcon
+    intro k hk
+    by_contra hk2
+    exact hne ⟨k, hk, hk2⟩
+  classical
+  have hj := Nat.find_spec hex
+  have hmin : ∀ k, k < Nat.find hex → qv.violates (b.value + stepAt (-(1 + |b.value|) * w.h) k) = true := by
+    intro k hk
+    by_contra hne
+    exact Nat.find_min hex hk ⟨lt_trans hk hj.1, hne⟩
+  obtain ⟨_, h1⟩ := two_point_falls_back f w params v hown hok hF hB hpnd hc1 hvars hh b qv hqv hb hprec hl1
+    (Nat.find hex) hj.1 hmin (by simpa using hj.2)
+  rw [hnan] at h1
+  simp at h1
+
 /-- three-point scheme, halved step (Three:90-91, 98-99): `x - H` and `x + H` refused, `x - H/2` and
 `x + H/2` accepted: symmetric probes with half the step.  Stored: `d1Three`/`d2Three` of the values at
 `x ∓ H/2`; on a cubic the second derivative is exact (degree ≤ 3), the first one is off by
@@ -1314,6 +1392,35 @@ example : (update3 exf2 exW2 exB2).2 = none ∧
     (fun s t => by
       show exf2 (values (upd1 (upd1 exB2 0 s) 1 t)) = _
       rw [ex2_values]; simp [exf2, biquad]; ring)
+
+/-- `two_point_falls_back(_exact)` with `j = 3`: passed with `[-1/64, 3/64]`, the tries at `-1/16`,
+`1/16`, `-1/32` are refused, the fourth one at `1/32` goes through -/
+example : (update2 (exf quadr) (exW quadr .two) (exP (cn (-1 / 64) (3 / 64)))).1.der1 =
+    [some ((1 + 2 * 1 * 0) + 1 * stepAt (-(1 + |(0 : ℝ)|) * (1 / 16)) 3)] ∧
+    stepAt (-(1 + |(0 : ℝ)|) * (1 / 16)) 3 = 1 / 32 := by
+  have st : ∀ k, k < 4 → stepAt (-(1 + |(0 : ℝ)|) * (1 / 16)) k = [-(1 / 16), 1 / 16, -(1 / 32), 1 / 32].getD k 0 := by
+    intro k hk
+    rcases k with _ | _ | _ | _ | k
+    · simp [stepAt]
+    · simp [stepAt, nextStep, Scalar.ltb]
+    · simp [stepAt, nextStep, Scalar.ltb]; norm_num
+    · simp [stepAt, nextStep, Scalar.ltb]; norm_num
+    · omega
+  refine ⟨two_point_falls_back_exact (exf quadr) (exW quadr .two) (exP (cn (-1 / 64) (3 / 64))) 0 (ex_own _ _) (ex_ok _ _)
+    (ex_freeFn _ _) (ex_bounded _ quadr_bound) (by simp [names, exP]) rfl rfl (by norm_num [exW]) ⟨0, 0, 0, none⟩
+    (qc (-1 / 64) (3 / 64)) rfl rfl rfl rfl 3 (by norm_num) ?_ ?_ 1 1 1 (fun t => ex_poly quadr t), ?_⟩
+  · intro k hk
+    show (qc (-1 / 64) (3 / 64)).violates (0 + stepAt (-(1 + |(0 : ℝ)|) * (1 / 16)) k) = true
+    rw [st k (by omega)]
+    rcases k with _ | _ | _ | k
+    · simp [qc, cn, Param.violates, Interval.isCorrect, Scalar.geb, Scalar.leb] <;> norm_num
+    · simp [qc, cn, Param.violates, Interval.isCorrect, Scalar.geb, Scalar.leb] <;> norm_num
+    · simp [qc, cn, Param.violates, Interval.isCorrect, Scalar.geb, Scalar.leb] <;> norm_num
+    · omega
+  · show (qc (-1 / 64) (3 / 64)).violates (0 + stepAt (-(1 + |(0 : ℝ)|) * (1 / 16)) 3) = false
+    rw [st 3 (by norm_num)]
+    simp [qc, cn, Param.violates, Interval.isCorrect, Scalar.geb, Scalar.leb] <;> norm_num
+  · rw [st 3 (by norm_num)]; simp
 
 end instances
 
